@@ -27,6 +27,23 @@ static void one(const uint8_t *ad, size_t adlen, const uint8_t *m, size_t mlen, 
             api_inc_encfin[alg](&st, c + mlen);
             api_inc_free[alg](&st);
             got = clen;
+            /* the same packet in four calls (one of them empty), split points varying with the shape */
+            {
+                uint8_t *c2 = hx_buf(clen);
+                size_t k1 = (adlen * 5 + mlen * 3 + 1) % (mlen + 1), k2 = k1 + (mlen - k1) / 2;
+                api_inc_init[alg](&st, nonce, key);
+                api_inc_start[alg](&st, adp, adlen);
+                api_inc_enc[alg](&st, m, c2, k1);
+                api_inc_enc[alg](&st, m + k1, c2 + k1, 0);
+                api_inc_enc[alg](&st, m + k1, c2 + k1, k2 - k1);
+                api_inc_enc[alg](&st, m + k2, c2 + k2, mlen - k2);
+                api_inc_encfin[alg](&st, c2 + mlen);
+                api_inc_free[alg](&st);
+                hx_stat("evaluations", 1);
+                if (memcmp(c2, exp, clen) != 0 || !hx_buf_ok(c2, clen))
+                    hx_fail("encrypt:incremental-chunked", "alg=%s split %zu+0+%zu+%zu differs from specification adlen=%zu mlen=%zu pat=%s", api_alg_name[alg], k1, k2 - k1, mlen - k2, adlen, mlen, pat);
+                hx_free(c2);
+            }
         } else if (entry == 2) {
             api_masked_key mk;
             api_masked_key_init(alg, &mk, key);
